@@ -16,8 +16,9 @@ UNIT = Unit(
     properties=["C19"],
     rules=["attrs"],
     describe="go::mangle::go_ident: the name handed to the Go printer is always a LEGAL Go identifier (a letter or `_`, then letters, digits, `_`) and "
-             "never one of Go's 25 keywords; a name that already is a legal non-keyword identifier is passed on unchanged (user names are stable), every "
-             "other name gets the `_goml_` prefix. is_valid_go_ident / is_go_keyword decide exactly legality / keyword-hood",
+             "never a RESERVED name — one of Go's 25 keywords or a predeclared identifier the emitted code relies on (`len`, `append`, `panic`, `nil`, `any`, "
+             "`fmt`, ..) that a goml program could choose; a legal unreserved name is passed on unchanged (user names are stable), every other name gets "
+             "the `_goml_` prefix. is_valid_go_ident / is_go_keyword / is_go_predeclared decide exactly legality / reservedness",
     trusted=["std string functions are shims with their documented semantics: chars(), as_bytes() (ASCII text is its own bytes; any other character "
              "contributes a byte >= 0x80), String::push / push_str / from, to_string, char::is_ascii_alphanumeric, u8::is_ascii_*",
              "the inner loop that writes a character's UTF-8 bytes as hex (`encode_utf8` + `write!(\"{:02x}\")`) is the stub push_hex_of_char: it appends "
@@ -26,10 +27,15 @@ UNIT = Unit(
              "collisions are listed in DESIGN §5)"],
     items=[
         Raw(path="contracts/goident.shim.rs"),
+        Fn(file=MG, name="is_go_predeclared", ret="r", optional=True,
+           pre_rewrites=[(re.compile(r"matches!\(\s*(\w+),\s*((?:\"[^\"]*\"\s*\|?\s*)+)\)", re.S), kw_matches, 1)],
+           obligation="true exactly for the predeclared identifiers of Go (universe block, plus `fmt`) that a goml program can choose as a name",
+           contract="ensures r == go_predeclared(s@),"),
         Fn(file=MG, name="is_go_keyword", ret="r",
            pre_rewrites=[(re.compile(r"matches!\(\s*(\w+),\s*((?:\"[^\"]*\"\s*\|?\s*)+)\)", re.S), kw_matches, 1)],
-           obligation="true exactly for the 25 keywords of the Go specification",
-           contract="ensures r == go_keyword(s@),"),
+           obligation="true exactly for the names the emitted Go must not define: the 25 keywords of the Go specification and the predeclared identifiers a goml "
+                      "program can choose (with is_go_predeclared, when that helper exists)",
+           contract="ensures r == go_reserved(s@),"),
         Fn(file=MG, name="is_valid_go_ident", ret="r", attrs="#[verifier::loop_isolation(false)]", rules=["attrs", "iter_all"],
            pre_rewrites=[("let bytes = s.as_bytes();", "let bytes = str_as_bytes(s);"),
                          (re.compile(r"let Some\(\(&first, rest\)\) = bytes\.split_first\(\) else \{\s*return false;\s*\};"),
@@ -52,11 +58,12 @@ UNIT = Unit(
                          ("ch.is_ascii_alphanumeric()", "char_is_ascii_alnum(ch)"),
                          (re.compile(r"out\.push\(([^()]+)\);"), r"string_push(&mut out, \1);", "*"),
                          (re.compile(r"out\.push_str\(([^()]+)\);"), r"string_push_str(&mut out, \1);", "*")],
-           obligation="the result is a legal Go identifier and not a Go keyword; a legal non-keyword name is returned unchanged",
-           contract="ensures legal_go_ident(r@), !go_keyword(r@), (legal_go_ident(name@) && !go_keyword(name@)) ==> r@ == name@,",
+           obligation="the result is a legal Go identifier and neither a Go keyword nor a predeclared identifier the output relies on (`len`, `append`, `panic`, "
+                      "`nil`, `any`, ..); a legal unreserved name is returned unchanged",
+           contract="ensures legal_go_ident(r@), !go_reserved(r@), (legal_go_ident(name@) && !go_reserved(name@)) ==> r@ == name@,",
            ghost=[("@loop:0:before", "", "proof { lemma_goml_prefix(); }"),
                   ("string_push_str(&mut out, \"_x\");", "line-after", "proof { reveal_strlit(\"_x\"); }"),
-                  ("@after-loop:__ci <", "", "proof { lemma_underscore_no_keyword(out@); }")],
+                  ("@after-loop:__ci <", "", "proof { lemma_underscore_not_reserved(out@); }")],
            loop_fn=lambda k, header, kw: ("invariant __ci <= __chs@.len(), out@.len() >= 6, out@[0] == '_',\n"
                                           "  forall|i: int| 0 <= i < out@.len() ==> is_alnum(#[trigger] out@[i]) || out@[i] == '_',\n"
                                           "decreases __chs@.len() - __ci," if "__ci <" in header else None)),
